@@ -79,8 +79,11 @@ theorem EntriesOK.assignAll {kind : HKind} : ∀ (items : List GoVal) {es es' : 
       rw [ht] at ha
       exact EntriesOK.assignAll rest (h.tryAssign ht) ha
 
-/-- The invariant: every container in the heap is `EntriesOK`. -/
-def HeapKeys (st : DState) : Prop := ∀ o ∈ st.heap, EntriesOK o.kind o.kvs
+/-- A heap object: its entries are `EntriesOK`, and only list objects have list items. -/
+def ObjOK (o : HObj) : Prop := EntriesOK o.kind o.kvs ∧ (o.kind ≠ .list → o.xs = [])
+
+/-- The invariant: every container in the heap is `ObjOK`. -/
+def HeapKeys (st : DState) : Prop := ∀ o ∈ st.heap, ObjOK o
 
 end Ogorek
 
@@ -89,7 +92,7 @@ namespace Ogorek
 theorem HeapKeys.of_heap_eq {st st' : DState} (h : HeapKeys st) (e : st'.heap = st.heap) : HeapKeys st' := by
   unfold HeapKeys at *; rw [e]; exact h
 
-theorem HeapKeys.alloc {st : DState} (h : HeapKeys st) (o : HObj) (ho : EntriesOK o.kind o.kvs) :
+theorem HeapKeys.alloc {st : DState} (h : HeapKeys st) (o : HObj) (ho : ObjOK o) :
     HeapKeys (allocObj st o).1 := by
   intro x hx
   simp only [allocObj, List.mem_append, List.mem_singleton] at hx
@@ -97,7 +100,7 @@ theorem HeapKeys.alloc {st : DState} (h : HeapKeys st) (o : HObj) (ho : EntriesO
   · exact h x hx
   · subst hx; exact ho
 
-theorem HeapKeys.heapSet {st : DState} (h : HeapKeys st) (id : Nat) (o : HObj) (ho : EntriesOK o.kind o.kvs) :
+theorem HeapKeys.heapSet {st : DState} (h : HeapKeys st) (id : Nat) (o : HObj) (ho : ObjOK o) :
     HeapKeys (Ogorek.heapSet st id o) := by
   intro x hx
   simp only [Ogorek.heapSet] at hx
@@ -146,8 +149,10 @@ theorem listAppend_heapKeys {st st' : DState} {l l' : GoVal} {items : List GoVal
   · split at h
     · rename_i o ho
       split at h
-      · simp at h; obtain ⟨rfl, _⟩ := h
-        exact hk.heapSet _ _ (hk o (getElem?_mem ho))
+      · rename_i hlist
+        simp at h; obtain ⟨rfl, _⟩ := h
+        have hl : o.kind = .list := by simpa using hlist
+        exact hk.heapSet _ _ ⟨(hk o (getElem?_mem ho)).1, fun hne => absurd hl hne⟩
       · simp at h
     · simp at h
   · simp at h
@@ -237,12 +242,12 @@ theorem exec_heapKeys (mc : MCfg) (hook : Hook) (i : Insn) (pos : Nat) (st st' :
     simp only [exec] at he
     simp only [Except.ok.injEq] at he
     subst he
-    exact (hk.alloc { kind := dictKind mc.cfg } (EntriesOK.nil _)).of_heap_eq rfl
+    exact (hk.alloc { kind := dictKind mc.cfg } ⟨EntriesOK.nil _, fun _ => rfl⟩).of_heap_eq rfl
   case emptyList =>
     simp only [exec, mkList] at he
     split at he
     · simp only [Except.ok.injEq] at he; subst he
-      exact (hk.alloc { kind := .list, xs := [] } trivial).of_heap_eq rfl
+      exact (hk.alloc { kind := .list, xs := [] } ⟨trivial, fun h => absurd rfl h⟩).of_heap_eq rfl
     · simp [push] at he; subst he; exact hk
   case list =>
     simp only [exec] at he
@@ -251,7 +256,7 @@ theorem exec_heapKeys (mc : MCfg) (hook : Hook) (i : Insn) (pos : Nat) (st st' :
     · simp only [mkList] at he
       split at he
       · simp only [Except.ok.injEq] at he; subst he
-        exact (hk.alloc { kind := .list, xs := _ } trivial).of_heap_eq rfl
+        exact (hk.alloc { kind := .list, xs := _ } ⟨trivial, fun h => absurd rfl h⟩).of_heap_eq rfl
       · simp at he; subst he; exact hk
   case dict =>
     simp only [exec] at he
@@ -262,7 +267,7 @@ theorem exec_heapKeys (mc : MCfg) (hook : Hook) (i : Insn) (pos : Nat) (st st' :
       · split at he
         · rename_i es hes
           simp only [Except.ok.injEq] at he; subst he
-          exact (hk.alloc { kind := dictKind mc.cfg, kvs := es } ((EntriesOK.nil _).assignAll _ hes)).of_heap_eq rfl
+          exact (hk.alloc { kind := dictKind mc.cfg, kvs := es } ⟨(EntriesOK.nil _).assignAll _ hes, fun _ => rfl⟩).of_heap_eq rfl
         · simp at he
   case stackGlobal =>
     simp only [exec] at he
@@ -374,7 +379,7 @@ theorem exec_heapKeys (mc : MCfg) (hook : Hook) (i : Insn) (pos : Nat) (st st' :
                   · split at he
                     · rename_i es hes
                       simp [pure, Except.pure] at he; subst he
-                      exact hk2.heapSet _ _ ((hk2 o (getElem?_mem ho)).tryAssign hes)
+                      exact hk2.heapSet _ _ ⟨(hk2 o (getElem?_mem ho)).1.tryAssign hes, (hk2 o (getElem?_mem ho)).2⟩
                     · simp at he
                 · simp at he
               · simp at he
@@ -394,8 +399,8 @@ theorem exec_heapKeys (mc : MCfg) (hook : Hook) (i : Insn) (pos : Nat) (st st' :
               · split at he
                 · rename_i es hes
                   simp at he; subst he
-                  exact (hk.heapSet _ _ (show EntriesOK ({ o with kvs := es } : HObj).kind ({ o with kvs := es } : HObj).kvs from
-                    (hk o (getElem?_mem ho)).assignAll _ hes)).of_heap_eq rfl
+                  exact (hk.heapSet _ _ (show ObjOK ({ o with kvs := es } : HObj) from
+                    ⟨(hk o (getElem?_mem ho)).1.assignAll _ hes, (hk o (getElem?_mem ho)).2⟩)).of_heap_eq rfl
                 · simp at he
             · simp at he
           · simp at he
